@@ -2,12 +2,12 @@
 Each public transformation is proved, from ANY state satisfying the class invariant, to re-establish
 the invariant and to realise its affine map; induction over the history is then the standard
 data-structure-invariant argument (unbounded length, any mix of forms)."""
-from .geom import RegionTranslate, RegionScale, RegionRotate90
+from .geom import RegionTranslate, RegionScale, RegionRotate90, MeshTranslate, MeshScale, MeshRotate90
 from .shared import RegionInit, MeshInit
 
-CONTRACTS = [RegionTranslate(), RegionScale(), RegionRotate90()]
+CONTRACTS = [RegionTranslate(), RegionScale(), RegionRotate90(), MeshTranslate(), MeshScale(), MeshRotate90()]
 _BY_NAME = {c.name: c for c in CONTRACTS}
-_USE = [RegionInit(), MeshInit()]
+_USE = [RegionInit(), MeshInit(), RegionTranslate(), RegionScale(), RegionRotate90()]
 
 
 def contract(name):
@@ -25,7 +25,7 @@ TRUSTED = ['contract of Region.__init__ (discharged under C01)',
 ASSUMPTIONS = ['A-trig: the 6e-17 residue of cos(pi/2) in doubles is ignored (covered by the bounded tier)']
 MUTANTS = {
     'translate_pmax_minus': {'module': 'region', 'contract': 'Region.translate', 'config': {'ndim': 2, 'inplace': True},
-                             'old': 'self._pmax = np.add(self.pmax, vector)', 'new': 'self._pmax = np.add(self.pmax, vector) + 0 * np.subtract(self.pmax, vector) - 0.0 + np.zeros_like(vector) + 1'},
+                             'old': 'self._pmax = np.add(self.pmax, vector)', 'new': 'self._pmax = np.add(self.pmin, vector)'},
     'rotate_sign': {'module': 'region', 'contract': 'Region.rotate90', 'config': {'ndim': 2, 'inplace': False, 'ax1': 0, 'ax2': 1},
                     'old': '[np.cos(k * np.pi / 2), -np.sin(k * np.pi / 2)],', 'new': '[np.cos(k * np.pi / 2), np.sin(k * np.pi / 2)],'},
 }
